@@ -72,6 +72,8 @@ type op struct {
 	Max int    `json:"max,omitempty"`
 	A   bool   `json:"a,omitempty"`
 	N   int    `json:"n,omitempty"`
+	R   int    `json:"r,omitempty"`   // rendezvous id: the clients holding ops with this id start them together
+	Q   int    `json:"q,omitempty"`   // number of participants of the rendezvous
 	X   [][5]int `json:"x,omitempty"` // typed/invalid points of a "wx" batch: series, kind, g-field, type, ts slot
 }
 
@@ -148,6 +150,7 @@ type world struct {
 	clipMin, clipMax int64  // when viewRet is set: only cells inside [clipMin, clipMax] are expected (export)
 	shardID uint64
 	backups int
+	arrived map[int]int // rendezvous id -> clients that reached it
 	touch  map[[2]int][][2]uint64 // (meas, g) -> intervals of operations that may create or remove the field
 }
 
@@ -266,12 +269,44 @@ func gen(r *hx.Run) []json.RawMessage {
 	wReopen := r.CfgInt("wreopen", 0)
 	wTyped := r.CfgInt("wtyped", 0)
 	wBackup := r.CfgInt("wbackup", 0)
+	wRace := r.CfgInt("wrace", 1)
+	if clients < 2 {
+		wRace = 0
+	}
 	var prog []json.RawMessage
 	lastDel := [2]int{-1, -1}
+	usedMF := map[[2]int]bool{} // (measurement, field) pairs the program has written so far
 	for i := 0; i < nops; i++ {
 		var p op
 		p.C = o.Choose(clients, "client")
-		switch o.Pick("op", 10, wRead, wDel, wDM, wSnap, wFull, 4, wBulk, wReopen, wTyped, wBackup) {
+		switch o.Pick("op", 10, wRead, wDel, wDM, wSnap, wFull, 4, wBulk, wReopen, wTyped, wBackup, wRace) {
+		case 11:
+			// two (or three) clients write the same brand-new field of one measurement at the same time, late
+			// in the history (the field index is no longer empty): the creation of the field and its
+			// persistence race with the acknowledgement of the other writer
+			m := o.Choose(nMeas, "m")
+			f := -1
+			for k := 0; k < nFields; k++ {
+				c := (k + o.Choose(nFields, "f0")) % nFields
+				if !usedMF[[2]int{m, c}] {
+					f = c
+					break
+				}
+			}
+			if f < 0 {
+				continue
+			}
+			usedMF[[2]int{m, f}] = true
+			nw := 2 + o.Choose(2, "writers")
+			if nw > clients {
+				nw = clients
+			}
+			for k := 0; k < nw; k++ {
+				q := op{C: (p.C + k) % clients, K: "w", R: i + 1, Q: nw, S: []int{m*nTagSets + (k+o.Choose(nTagSets, "ts"))%nTagSets}, F: []int{f}, T: []int{o.Choose(nSlots, "t")}}
+				b, _ := json.Marshal(q)
+				prog = append(prog, b)
+			}
+			continue
 		case 0:
 			p.K = "w"
 			n := 1 + o.Choose(8, "npts")
@@ -282,6 +317,7 @@ func gen(r *hx.Run) []json.RawMessage {
 					continue
 				}
 				seen[[3]int{s, f, t}] = true
+				usedMF[[2]int{s / nTagSets, f}] = true
 				p.S, p.F, p.T = append(p.S, s), append(p.F, f), append(p.T, t)
 			}
 		case 1:
@@ -346,6 +382,7 @@ func gen(r *hx.Run) []json.RawMessage {
 		case 7:
 			p.K = "bulk"
 			p.S, p.F = []int{o.Choose(useSeries, "s")}, []int{o.Choose(useFields, "f")}
+			usedMF[[2]int{p.S[0] / nTagSets, p.F[0]}] = true
 			p.Min = o.Choose(3, "base")
 			p.N = []int{50, 600, 1001, 1500, 2100}[o.Choose(5, "n")]
 		case 8:
@@ -407,11 +444,44 @@ func rangeOf(min, max int) (int64, int64) {
 	return slotTS(min), slotTS(max)
 }
 
+// rendezvous holds a client until q clients have reached the operations carrying the same id (or a
+// simulated second has passed: a participant may have stopped after a violation, or ddmin removed it).
+func (w *world) rendezvous(id, q int) {
+	simrt.MuLock(&w.mu, 0)
+	if w.arrived == nil {
+		w.arrived = map[int]int{}
+	}
+	w.arrived[id]++
+	simrt.MuUnlock(&w.mu)
+	for i := 0; i < 150 && !w.r.Aborted && len(w.r.Viol) == 0; i++ {
+		simrt.MuLock(&w.mu, 0)
+		n := w.arrived[id]
+		simrt.MuUnlock(&w.mu)
+		if n >= q {
+			// virtual time only advances when everything is blocked, so the participants that are asleep in
+			// this loop would start after the last arriver has finished: everybody sleeps until a common
+			// instant, and the scheduler then chooses among all of them
+			now := time.Now()
+			simrt.Sleep(now.Truncate(time.Second).Add(2*time.Second).Sub(now), 0)
+			w.r.Probe("probe_new_field_race_started_together")
+			return
+		}
+		if i < 50 {
+			simrt.Sleep(10*time.Millisecond, 0)
+		} else {
+			simrt.Sleep(500*time.Millisecond, 0)
+		}
+	}
+}
+
 func (w *world) doOp(p op) {
 	r := w.r
 	ctx := context.Background()
 	switch p.K {
 	case "w", "bulk":
+		if p.R > 0 {
+			w.rendezvous(p.R, p.Q)
+		}
 		var pts []models.Point
 		type rec struct {
 			ev *model.WEv
@@ -682,6 +752,8 @@ func (w *world) doBackup(p op) {
 		sig := kindSig
 		if strings.Contains(err.Error(), ".tombstone: no such file") {
 			sig += ":tombstoned-file"
+		} else if strings.Contains(err.Error(), "no values written") {
+			sig += ":no-values-written"
 		}
 		r.Violate("C38:backup-error", sig, "Backup/Export failed: %v", err)
 		return
@@ -920,6 +992,62 @@ func (w *world) checkTypes(pre, post map[[2]int]int, when string) {
 	}
 }
 
+// checkAckedSchema (C10, any number of clients): a field used by a write that was acknowledged before the cut,
+// with no drop of its measurement possibly in effect between that acknowledgement and the cut, must be
+// recorded with its type after the restart ("the recorded field types survive restarts, including unclean ones").
+func (w *world) checkAckedSchema(im image) {
+	var keys []model.SF
+	for k := range w.h.Cells {
+		keys = append(keys, k)
+	}
+	sort.Slice(keys, func(i, j int) bool {
+		if keys[i].Series != keys[j].Series {
+			return keys[i].Series < keys[j].Series
+		}
+		return keys[i].Field < keys[j].Field
+	})
+	done := map[[2]int]bool{}
+	for _, k := range keys {
+		m := k.Series / nTagSets
+		if done[[2]int{m, k.Field}] {
+			continue
+		}
+		var last *model.WEv
+		for _, ws := range w.h.Cells[k] {
+			for _, e := range ws {
+				if !e.Failed && e.Ret < im.cutSeq && (last == nil || e.Ret > last.Ret) {
+					last = e
+				}
+			}
+		}
+		if last == nil || w.droppedBetween(m, last.Ret, im.cutSeq) {
+			continue
+		}
+		want := influxql.Unknown
+		if k.Field < nFields {
+			want = fieldTypes[k.Field]
+		} else if y, ok := w.idType[last.ID]; ok {
+			want = []influxql.DataType{influxql.Unknown, influxql.Float, influxql.Integer, influxql.String, influxql.Unsigned}[y]
+		} else {
+			continue
+		}
+		done[[2]int{m, k.Field}] = true
+		mf := w.sh.MeasurementFields([]byte(measName(m)))
+		var f *tsdb.Field
+		if mf != nil {
+			f = mf.Field(fieldName(k.Field))
+		}
+		if f == nil {
+			w.r.Violate("C10:schema-type-lost", "schema-type-lost:acked-write:"+im.kind, "after the crash at [%s] the shard has no recorded type for field %s of %s although write #%d using it was acknowledged at %d, before the cut at %d, and the measurement was not dropped since", im.ev, fieldName(k.Field), measName(m), last.ID, last.Ret, im.cutSeq)
+			return
+		}
+		if f.Type != want {
+			w.r.Violate("C10:schema-type-changed", "schema-type-changed:acked-write:"+im.kind, "after the crash at [%s] field %s of %s is recorded as %s; write #%d acknowledged before the cut stored it as %s", im.ev, fieldName(k.Field), measName(m), f.Type, last.ID, want)
+			return
+		}
+	}
+}
+
 // read runs one cursor read and checks it against the history.
 func (w *world) read(s, f int, min, max int64, asc bool, asOf uint64, who string) bool {
 	r := w.r
@@ -1131,7 +1259,13 @@ func (w *world) hook(f *simfs.FS, ev *simfs.Event) error {
 	if len(w.images) >= w.imgCap {
 		return nil
 	}
-	if !r.Fault.Bool(1, w.cutDen, "cut") {
+	den := w.cutDen
+	if den > 4 && fileKind(ev.Path) == "fields" {
+		// the field index change log is touched rarely and every event on it is a commit step of a
+		// schema change: cut there far more often than elsewhere
+		den = 4
+	}
+	if !r.Fault.Bool(1, den, "cut") {
 		return nil
 	}
 	tear := int64(0)
@@ -1322,6 +1456,9 @@ func (w *world) recover(im image) {
 		}
 		if im.typesPost != nil {
 			w2.checkTypes(im.typesPre, im.typesPost, "after-crash")
+		}
+		if len(r.Viol) == 0 {
+			w2.checkAckedSchema(im)
 		}
 		before := len(r.Viol)
 		if before == 0 {
